@@ -88,6 +88,8 @@ type worker struct {
 	out    *bufio.Reader
 	errBuf *bytes.Buffer
 	Deaths int
+	// Retried counts requests that got no answer in time and were repeated on a fresh worker
+	Retried int
 }
 
 func (w *worker) start() error {
@@ -117,7 +119,23 @@ func (w *worker) stop() {
 }
 
 // call sends one request; died != "" names how the worker died ("fatal: ...", "hang").
+// call runs one request in the worker.  A missing answer is only a hang if it is missing again on a fresh worker with a
+// much longer timeout: a loaded machine, a worker that was still starting or one busy collecting garbage is not a hang.
 func (w *worker) call(rq wReq, timeout time.Duration) (rs wResp, died string, err error) {
+	rs, died, err = w.callOnce(rq, timeout)
+	if err == nil && strings.HasPrefix(died, "hang:") {
+		long := 4 * timeout
+		if long < 30*time.Second {
+			long = 30 * time.Second
+		}
+		w.Deaths--
+		w.Retried++
+		rs, died, err = w.callOnce(rq, long)
+	}
+	return
+}
+
+func (w *worker) callOnce(rq wReq, timeout time.Duration) (rs wResp, died string, err error) {
 	if w.cmd == nil {
 		if err = w.start(); err != nil {
 			return
